@@ -103,10 +103,10 @@ def run(opts):
             if o in ASSERT:
                 t = stack[0] if stack else None
                 has = bool(stack)
-                r = {"O": has and isinstance(t, dict), "A": has and isinstance(t, list), "S": has and isinstance(t, str),
-                     "I": has and is_int(t), "R": has and isinstance(t, float), "N": has and (is_int(t) or isinstance(t, float)),
-                     "T": has and t is True, "F": has and t is False, "B": has and isinstance(t, bool),
-                     "0": has and t is None, "E": len(stack) >= 2 and dump_eq(stack[0], stack[1])}[o]
+                r = {"O": lambda: has and isinstance(t, dict), "A": lambda: has and isinstance(t, list), "S": lambda: has and isinstance(t, str),
+                     "I": lambda: has and is_int(t), "R": lambda: has and isinstance(t, float), "N": lambda: has and (is_int(t) or isinstance(t, float)),
+                     "T": lambda: has and t is True, "F": lambda: has and t is False, "B": lambda: has and isinstance(t, bool),
+                     "0": lambda: has and t is None, "E": lambda: len(stack) >= 2 and dump_eq(stack[0], stack[1])}[o]()
                 if r == pending_not:
                     raise Fail()
                 pending_not = False
